@@ -1,10 +1,12 @@
 ---- MODULE MC_LifecycleEnum ----
-(* Enumeration of the clauses the as-is design spec can violate (for the known-findings list in reports/C02.md):
-   run repeatedly, adding the key TLC reports to Seen, until both invariants hold.  See harness/props/C02.py
-   enumerate_known().  *)
+(* Enumeration of the clauses the as-is design spec can violate (for the known-findings list in reports/C02.md).
+   One exhaustive run; both "invariants" are always TRUE and print every (clause, variant) key once per worker:
+   variant T = no open_link of attempt >= 2 had begun when the clause failed, R = it had.
+   See harness/props/C02.py enumerate_known().  *)
 EXTENDS MC_Lifecycle
-CONSTANT Seen
-EnumInv == viol = "ok" \/ ViolKey \in Seen
+ASSUME TLCSet(7, {})
+Note(k) == IF k \in TLCGet(7) THEN TRUE ELSE TLCSet(7, TLCGet(7) \cup {k}) /\ PrintT(<<"KEY", k>>)
+EnumInv == viol = "ok" \/ Note(ViolKey)
 QuietKey == Pr!QuietClause(QRecord, LastStim) \o "/" \o (IF g.next >= 3 THEN "R" ELSE "T")
-EnumQuiet == (PreQuiet /\ viol = "ok") => (Pr!QuietClause(QRecord, LastStim) = "ok" \/ QuietKey \in Seen)
+EnumQuiet == (PreQuiet /\ viol = "ok") => (Pr!QuietClause(QRecord, LastStim) = "ok" \/ Note(QuietKey))
 ====
